@@ -80,8 +80,14 @@ fn check_affixes(params: &DecParams, w: usize, cx: &mut Cx) {
         ("image", "<p>aa <img src=\"/s\" alt=\"bb\"> cc</p>".into(), format!("aa {}bb{} cc", p.img_open, p.img_close)),
         ("nested", "<p><em>aa <strong>bb</strong></em></p>".into(), format!("{}aa {}bb{}{}", p.em, p.strong, p.strong, p.em)),
     ];
-    for (name, html, want) in cases {
-        let r = cx.render(html.as_bytes(), w, &cfg);
+    // with Unicode strikeout (the default) the marks go on the element's text only, never on
+    // the decorator's own strings
+    let cfg_marks = Cfg::new(Dec::Custom(params.clone()));
+    let mut cases: Vec<(&str, String, String, &Cfg)> = cases.into_iter().map(|(n, h, want)| (n, h, want, &cfg)).collect();
+    cases.push(("strikeout (Unicode marks on)", "<p>aa <del>bb</del> cc</p>".into(), format!("aa {}b\u{336}b\u{336}{} cc", p.strike, p.strike), &cfg_marks));
+    cases.push(("strikeout in em (Unicode marks on)", "<p><em>aa <s>bb</s></em></p>".into(), format!("{}aa {}b\u{336}b\u{336}{}{}", p.em, p.strike, p.strike, p.em), &cfg_marks));
+    for (name, html, want, cfg) in cases {
+        let r = cx.render(html.as_bytes(), w, cfg);
         cx.state(1);
         match &r {
             Out::Ok(s) => {
